@@ -77,10 +77,13 @@ class FunctionInteractionsUtils(object):
         non_empty_paths = [p for p in paths if p != empty_path]
 
         # There are both empty paths and non-empty paths. it should be one or the other.
-        if len(paths) > len(non_empty_paths) > 0 and current_prefix is not None:
-            res.append(current_prefix)
+        if len(paths) > len(non_empty_paths) > 0:
+            res.append(current_prefix if current_prefix is not None else empty_path)
 
-        splits = [DDSPathUtils.split(p) for p in non_empty_paths]
+        # groupby only groups consecutive elements: the paths must be sorted by their first segment.
+        splits = sorted(
+            [DDSPathUtils.split(p) for p in non_empty_paths], key=lambda x: x[0]
+        )
         # _logger.debug("non_terminal splits: %s", splits)
         groups = itertools.groupby(splits, lambda x: x[0])
         for (key, l) in groups:
